@@ -83,6 +83,8 @@ Definition root (p : place) : nat := match p with PSlot s => s | PPart s _ => s 
 Inductive instr :=
 | ISkip
 | ISeq (a b : instr)
+| IUse (p : place)                       (* a read of p that copies nothing (Länge, gleich, source of a slice): changes nothing,
+                                            but the value must still be there *)
 | INew (d : nat) (n : N)                 (* a runtime constructor fills alloca d with a new n-byte value *)
 | ICopy (d : nat) (p : place)            (* deep copy of p into d; nothing happens if p IS d (ret == src check) *)
 | IMove (d s : nat)                      (* load/store of the value struct: claim *)
@@ -197,6 +199,9 @@ Definition claim_or_copy (dest : nat) (r : res) (cs : cstate) : option (instr * 
 
 Definition res_place (r : res) : option place :=
   match r with RPrim => None | RTemp s => Some (PSlot s) | RRef p => Some p end.
+(* an operator reads its operand in place *)
+Definition use_of (r : res) : instr :=
+  match res_place r with Some p => IUse p | None => ISkip end.
 
 Fixpoint memv (x : var) (l : list var) : bool :=
   match l with [] => false | y :: r => Nat.eqb x y || memv x r end.
@@ -233,20 +238,20 @@ Section Compile.
                    end
     | ELit n => let (d, cs1) := fresh cs in Some (INew d n, RTemp d, add_temp d false cs1)
     | EUse1 a => match cexpr a cs with
-                 | Some (ia, _, cs1) => Some (ia, RPrim, cs1)
+                 | Some (ia, ra, cs1) => Some (ISeq ia (use_of ra), RPrim, cs1)
                  | None => None
                  end
     | EUse2 a b => match cexpr a cs with
-                   | Some (ia, _, cs1) =>
+                   | Some (ia, ra, cs1) =>
                      match cexpr b cs1 with
-                     | Some (ib, _, cs2) => Some (ISeq ia ib, RPrim, cs2)
+                     | Some (ib, rb, cs2) => Some (iseq [ia; ib; use_of ra; use_of rb], RPrim, cs2)
                      | None => None
                      end
                    | None => None
                    end
     | EDerive a n => match cexpr a cs with
-                     | Some (ia, _, cs1) =>
-                       let (d, cs2) := fresh cs1 in Some (ISeq ia (INew d n), RTemp d, add_temp d false cs2)
+                     | Some (ia, ra, cs1) =>
+                       let (d, cs2) := fresh cs1 in Some (iseq [ia; use_of ra; INew d n], RTemp d, add_temp d false cs2)
                      | None => None
                      end
     | EElem a k =>
@@ -879,6 +884,7 @@ Fixpoint run (fuel : nat) (i : instr) (st : rstate) {struct i} : outcome * rstat
                 | (ONormal, st1) => run fuel b st1
                 | r => r
                 end
+  | IUse _ => (ONormal, st)
   | INew d n => let (b, st1) := alloc st n in (ONormal, sset st1 d (Res [b]))
   | ICopy d p =>
     if place_eqb p (PSlot d) then (ONormal, st)
